@@ -151,6 +151,7 @@ def r3_lock_while_starting(chk: Check):
     starts = g.call_nodes(lambda c: tail(c) == "start" and "processbuilder" in src(c.func))
     pid = [n for n in g.live if n.kind == "with_enter" and "pidpath.open" in src(n.ast.context_expr)]
     chk.require(len(starts) == 1 and len(pid) == 1 and g.dominates(starts[0][0], pid[0]), chk.fkey(ar, "pid after spawn"), "aio_run must spawn the process and then write the pid file", chk.loc(ar.module, ar.node))
+    lock_files_never_removed(chk)
 
 
 def _anc(node):
@@ -249,6 +250,8 @@ def r5_marker_writers(chk: Check):
         for c in cands:
             nrm += 1
             target = c.func.value if tail(c) in ("unlink", "rename", "replace") and isinstance(c.func, ast.Attribute) else (c.args[0] if c.args else None)
+            if (dotted(c.func) or "").split(".")[0] in ("os", "shutil") and c.args:
+                target = c.args[0]
             if target is None:
                 continue
             if g is None:
@@ -263,6 +266,35 @@ def r5_marker_writers(chk: Check):
                         f"`{src(c)}` in `{f.qual}` can remove / replace the success marker ({hit}): a later launch of the job script (e.g. one that was waiting for the job lock) "
                         "would run the body again although it already succeeded", chk.loc(f.module, c))
     chk.count("file_removal_sites", nrm)
+
+
+def lock_files_never_removed(chk: Check):
+    """A lock file that is deleted (or renamed) while other processes may have it open gives two
+    holders of the 'same' lock: a waiter locks the now nameless inode, a newcomer creates and locks a new file"""
+    tree = chk.tree
+    n = 0
+    for f in tree.nontest_funcs():
+        in_lock_class = f.cls is not None and ("Lock" in f.cls.qual or any("Lock" in b for b in tree.base_names(f.cls)))
+        cands = [c for c in fn_calls(f.node) if tail(c) in ("unlink", "remove", "rmfile", "rename", "replace", "rmtree")]
+        if not cands:
+            continue
+        g = CFG(f.node)
+        rd = ReachingDefs(g)
+        for c in cands:
+            target = c.func.value if tail(c) in ("unlink", "rename", "replace") and isinstance(c.func, ast.Attribute) else (c.args[0] if c.args else None)
+            if (dotted(c.func) or "").split(".")[0] in ("os", "shutil") and c.args:
+                target = c.args[0]
+            if target is None:
+                continue
+            texts = set()
+            for nn in g.nodes_of(c):
+                texts |= _may_values(target, nn, rd)
+            hit = [t for t in texts if "lockpath" in t or "xplock" in t or ".lock'" in t or '.lock"' in t or (in_lock_class and t in ("self.path", "self._path", "self.lockfile", "self.lockfile_path"))]
+            n += 1
+            chk.require(not hit, chk.fkey(f, "removes a lock file"),
+                        f"`{src(c)}` in `{f.qual}` removes / renames a lock file ({hit}): a process already waiting on the old file and a process arriving later would both hold 'the' lock", chk.loc(f.module, c))
+    chk.count("removal_sites_checked_for_lock_files", n)
+    chk.ok("lock files are never removed", "", f"{n} removal / rename sites examined")
 
 
 def _may_values(e, at, rd, depth=4) -> set:
